@@ -7,7 +7,7 @@ from harness.common import EPS_W, bt, dates, frame
 
 BOUNDS = {
     'quick': 'AlgoStack of length <= 4 with symbolic return pattern and symbolic run_always marker per algo (absent/True/False), one level of nesting '
-             '(inner stack of length 2 at any position); Or over <= 3 branches; Not; Require with item absent / None / present and both defaults; '
+             '(inner stack of length 2 at any position); Or over <= 3 branches; Not; Require with item absent / None / present (non-empty, empty containers, falsy scalars) and both defaults; '
              'RunIfOutOfBounds on a 2-security tree with symbolic positions, capital and tolerance and grid targets incl. shorts; Strategy.run twice '
              'on a nested tree with logging algos',
     'thorough': 'AlgoStack length <= 5, nesting at two positions',
@@ -120,10 +120,13 @@ def h_flow(run, cfg):
         run.check(r(t) == if_none and not seen, 'require-absent-default')
         t.temp['item'] = None
         run.check(r(t) == if_none and not seen, 'require-none-default')
-        t.temp['item'] = [1, 2]
-        got = r(t)
-        run.check(seen == [[1, 2]], 'require-applies-predicate-to-item')
-        run.check(got == run.boolean('pred_%s' % if_none), 'require-result')
+        # any entry that is present and not None goes to the predicate: non-empty and empty containers, falsy scalars
+        for j, item in enumerate(([1, 2], [], {}, 0, 0.0, '', False)):
+            del seen[:]
+            t.temp['item'] = item
+            got = r(t)
+            run.check(len(seen) == 1 and seen[0] is item, 'require-applies-predicate-to-item', 'item %r if_none=%s' % (item, if_none))
+            run.check(got == run.boolean('pred_%s' % if_none), 'require-result', 'item %r' % (item,))
 
 
 def h_oob(run, cfg):
